@@ -12,6 +12,7 @@ class VClock:
         self.now_ms = start_ms
         self.auto_step_ms = 0        # advance after every now() call
         self.saved = []
+        self.on_now = None           # optional callback(ms) — the scheduler records which actor read the clock
         clock = self
 
         class _DT(_dt.datetime):
@@ -19,6 +20,8 @@ class VClock:
             def now(cls, tz=None):
                 ms = clock.now_ms
                 clock.now_ms += clock.auto_step_ms
+                if clock.on_now is not None:
+                    clock.on_now(ms)
                 base = _dt.datetime.fromtimestamp(ms / 1000.0, tz)
                 # keep exact milliseconds: int(timestamp()*1000) must give back ms
                 return cls.fromtimestamp(ms / 1000.0 + 0.0004, tz) if int(base.timestamp() * 1000) != ms else cls.fromtimestamp(ms / 1000.0, tz)
